@@ -235,6 +235,15 @@ func (p *parser) parse(opts CharsetOptions) *Regexp {
 				}
 			} else {
 				cs = p.parseClass(opts)
+
+				// A class matching one byte above 0x7f: keep the byte itself as the text of the
+				// constant (a rune would stand for its two-byte utf-8 encoding).
+				if opts.ScanBytes && cs.oneRune() && cs[0] > 0x7f {
+					re.op = opBytesLiteral
+					re.text = string([]byte{byte(cs[0])})
+					stack = append(stack, re)
+					continue
+				}
 			}
 			re.charset = append(re.charset0[:0], cs...)
 			stack = append(stack, re)
